@@ -71,6 +71,7 @@ type DOp struct {
 	Out            []int  `json:"out"`
 	Total          int    `json:"total"`
 	CompletedAfter int    `json:"completed_after"`
+	Order          []int  `json:"order"` // answered requests: index into flushes ++ copy requests
 	Completed      bool   `json:"completed"`
 }
 
@@ -425,14 +426,54 @@ func (e *drvEnv) run(op *DOp, rng *vh.Rng) {
 	}
 	// answer: flushes first (a GPU's command processor holds copies back while it
 	// flushes), copies in random order; FlushLast moves one flush answer to the end
-	order := append([]sim.Msg{}, flushes...)
-	for i := len(copies) - 1; i > 0; i-- {
-		j := rng.Intn(i + 1)
-		copies[i], copies[j] = copies[j], copies[i]
+	type indexed struct {
+		m   sim.Msg
+		idx int
 	}
-	order = append(order, copies...)
-	if op.FlushLast && len(flushes) > 0 && len(copies) > 0 {
-		order = append(order[1:], order[0])
+	var fl, cp []indexed
+	for i, m := range flushes {
+		fl = append(fl, indexed{m, i})
+	}
+	for i, m := range copies {
+		cp = append(cp, indexed{m, len(flushes) + i})
+	}
+	for i := len(cp) - 1; i > 0; i-- {
+		j := rng.Intn(i + 1)
+		cp[i], cp[j] = cp[j], cp[i]
+	}
+	all := append(append([]indexed{}, fl...), cp...)
+	if op.FlushLast && len(fl) > 0 && len(cp) > 0 {
+		// one GPU is slow to flush: its answer comes after some or all copy answers
+		k := 1 + rng.Intn(len(all)-1)
+		if rng.Bool() {
+			k = len(all) - 1
+		}
+		f := all[0]
+		copy(all[0:], all[1:k+1])
+		all[k] = f
+	}
+	if len(op.Order) == len(all) && len(all) > 0 {
+		// replay: answer in the recorded order
+		byIdx := map[int]indexed{}
+		for _, x := range all {
+			byIdx[x.idx] = x
+		}
+		re := []indexed{}
+		for _, i := range op.Order {
+			if x, ok := byIdx[i]; ok {
+				re = append(re, x)
+				delete(byIdx, i)
+			}
+		}
+		if len(re) == len(all) {
+			all = re
+		}
+	}
+	order := make([]sim.Msg, len(all))
+	op.Order = []int{}
+	for i, x := range all {
+		order[i] = x.m
+		op.Order = append(op.Order, x.idx)
 	}
 	for k, m := range order {
 		switch r := m.(type) {
@@ -526,7 +567,7 @@ func replayDrv(in DrvCase) DrvCase {
 	}
 	rng := vh.NewRng(12345)
 	for _, o := range in.Ops {
-		op := DOp{Op: o.Op, Addr: o.Addr, Data: o.Data, N: o.N, Typ: o.Typ, FlushLast: o.FlushLast}
+		op := DOp{Op: o.Op, Addr: o.Addr, Data: o.Data, N: o.N, Typ: o.Typ, FlushLast: o.FlushLast, Order: o.Order}
 		e.run(&op, rng)
 		c.Ops = append(c.Ops, op)
 		if e.stuck {
@@ -616,13 +657,11 @@ func genDrv(rng *vh.Rng, idx int) DrvCase {
 		n = n / es * es
 		if n == 0 {
 			n = es
-			if !c.Magic || rng.Intn(4) != 0 {
-				// zero-length copies only now and then, and only in the magic path
-			} else {
-				n = 0
+			if rng.Intn(4) == 0 {
+				n = 0 // a zero-length copy now and then
 			}
 		}
-		op := DOp{Addr: a.Ptr + off, Typ: typ}
+		op := DOp{Addr: a.Ptr + off, Typ: typ, FlushLast: rng.Intn(3) == 0}
 		kind := rng.Pick(4, 4, 2, 2, 2)
 		if !c.Magic && kind >= 2 && kind <= 3 {
 			kind = rng.Intn(2)
@@ -689,25 +728,6 @@ func drvCoq(c *DrvCase) string {
 		default:
 			continue
 		}
-		if (o.Op == "h2d" || o.Op == "d2h") && !c.Magic && !o.Completed && !o.Crash {
-			// a command that never completed (reported by the monitor) has no
-			// observation to compare; the case ends here
-			wins = nil
-			c.Windows = []WinJ{}
-			break
-		}
-		nFreed := 0
-		for _, b := range o.Bufs {
-			if b.Freed {
-				nFreed++
-			}
-		}
-		if o.Op == "d2h" && !c.Magic && o.Crash && nFreed >= 2 {
-			// known finding remove-freed-buffers-panic (judged by the monitor): the
-			// model has no freed buffers, the case ends here
-			c.Windows = []WinJ{}
-			break
-		}
 		var bufs, reqs []string
 		for _, b := range o.Bufs {
 			bufs = append(bufs, fmt.Sprintf("mkBuf %d %d %s", b.Start, b.Size, vh.CoqBool(b.Dirty)))
@@ -716,8 +736,12 @@ func drvCoq(c *DrvCase) string {
 			reqs = append(reqs, fmt.Sprintf("(%d, %d, %d)", r.Dev, r.PA, r.Len))
 		}
 		// an operation that never completed is reported by the monitor, not here
-		ops = append(ops, fmt.Sprintf("(%s, [%s], mkOObs %s %s [%s] %s)", t, strings.Join(bufs, "; "),
-			vh.CoqBool(o.Crash), vh.CoqBool(o.Flush), strings.Join(reqs, "; "), coqInts(o.Out)))
+		after := 999999
+		if o.CompletedAfter >= 0 {
+			after = o.CompletedAfter
+		}
+		ops = append(ops, fmt.Sprintf("(%s, [%s], mkOObs %s %s [%s] %s, mkCObs %s %d)", t, strings.Join(bufs, "; "),
+			vh.CoqBool(o.Crash), vh.CoqBool(o.Flush), strings.Join(reqs, "; "), coqInts(o.Out), coqInts(o.Order), after))
 	}
 	for _, w := range c.Windows {
 		wins = append(wins, fmt.Sprintf("(%d, %s)", w.PA, coqInts(w.Bytes)))
